@@ -4,8 +4,9 @@ import itertools
 import z3
 
 from .interp import F, Agg, Cell, Ref, Unsupported, b_and, b_not, b_or, clone_value, is_sym, to_bool, to_real
-from .lib import MAXN, R, as_real, feq
+from .lib import MAXN, R, as_real, feq, g_feed, g_goal, g_merge, gconj
 from .moments import acc_spec, compositions, is_nan, to_real_int_eq, trees
+from . import rp
 
 
 def conj(pc):
@@ -23,15 +24,8 @@ def wm_get(W, v):
     return t[0], t[1]
 
 
-def feed_pairs(W, ty, pairs):
-    v = W.call_pure(ty, "new", [])
-    for (x, w) in pairs:
-        res = W.method(ty, "add", v, [F(x), F(w)])
-        rets = [(o, a) for (o, a) in res if o.kind == "return"]
-        if len(res) != 1 or len(rets) != 1:
-            raise Unsupported("%s::add forked / panicked: %s" % (ty, [(o.kind, o.msg) for o, _ in res]))
-        v = rets[0][1]
-    return v
+def feed_pairs(W, ty, pairs, pre=()):
+    return g_feed(W, ty, [[F(x), F(w)] for (x, w) in pairs], pre)
 
 
 def wm_stat(W, ty, v, meth, pre=()):
@@ -52,12 +46,6 @@ def gfeq(gv, expr):
     return gspec(gv, lambda v: feq(v, expr))
 
 
-def merge_concrete(W, ty, a, b):
-    ca, cb = Cell(clone_value(a)), Cell(clone_value(b))
-    outs = W.run(ty, "merge", [Ref(ca, ()), Ref(cb, ())], roots={"a": ca})
-    return outs
-
-
 def check_wm_add_step(W, prop):
     """positive running weight: add(x, w) with w >= 0 gives W+w and the exact weighted mean"""
     ws, a, x, w = z3.Reals("W A x w")
@@ -72,7 +60,7 @@ def check_wm_add_step(W, prop):
         goals.append(z3.Implies(conj(o.pc), to_bool(b_and(feq(w1, ws + w), feq(a1, (ws * a + w * x) / (ws + w))))))
     W.prove("WeightedMean.add-step(W > 0)", pre, z3.And(*goals), role="%s:WeightedMean.add-step" % prop,
             note="any running weight W > 0 and weighted mean A, any real x, any weight w >= 0 (zero included): sum of weights W+w, "
-                 "mean (W*A + w*x)/(W+w), no undefined operation")
+                 "mean (W*A + w*x)/(W+w), no undefined operation", replay=rp.wm_state_replay(ws, a, "add", x, w))
 
 
 def check_wm_merge_step(W, prop):
@@ -93,7 +81,8 @@ def check_wm_merge_step(W, prop):
                           to_bool(b_and(feq(w1, wa + wb), feq(a1, (wa * aa + wb * ab) / (wa + wb))))))
         goals.append(z3.Implies(conj(o.pc), z3.And(exp, to_bool(b_and(feq(w2, wb), feq(a2, ab))))))
     W.prove("WeightedMean.merge-step", pre, z3.And(*goals), role="%s:WeightedMean.merge-step" % prop,
-            note="all total weights >= 0 (either side possibly of zero weight): pooled weight and weighted mean; argument unchanged")
+            note="all total weights >= 0 (either side possibly of zero weight): pooled weight and weighted mean; argument unchanged",
+            replay=rp.wm_state_replay(wa, aa, "merge", other=(wb, ab)))
 
 
 def check_weighted_def_k(W, prop, ty, k, with_merge=False):
@@ -108,32 +97,27 @@ def check_weighted_def_k(W, prop, ty, k, with_merge=False):
         pre = [(ws[j] > 0) if pattern[j] else (ws[j] == 0) for j in range(k)]
         tag = "".join("w" if p else "0" for p in pattern)
         builds = []
-        whole = feed_pairs(W, ty, list(zip(xs, ws)))
-        builds.append(("stream", whole))
+        variants = []
+        builds.append(("stream", feed_pairs(W, ty, list(zip(xs, ws)), pre)))
         if with_merge and k >= 2:
             for parts in (2, 3):
                 if parts > k + 1:
                     continue
                 for comp in compositions(k, parts):
-                    leaves = [feed_pairs(W, ty, list(zip(xs[a:b], ws[a:b]))) for (a, b) in comp]
+                    leaves = [feed_pairs(W, ty, list(zip(xs[a:b], ws[a:b])), pre) for (a, b) in comp]
                     for tree in trees(0, parts):
                         def build(t):
                             if isinstance(t, int):
                                 return leaves[t]
-                            l, r = build(t[0]), build(t[1])
-                            # merge may branch on emptiness (weight sum == 0): resolve branches under this weight pattern
-                            ca, cb = Cell(clone_value(l)), Cell(clone_value(r))
-                            outs = W.run(ty, "merge", [Ref(ca, ()), Ref(cb, ())], pc=pre, roots={"a": ca})
-                            rets = [o for o in outs if o.kind == "return"]
-                            if len(outs) != 1 or len(rets) != 1:
-                                raise Unsupported("merge has %d paths under a fixed weight pattern" % len(outs))
-                            return rets[0].state.roots["a"].v
+                            return g_merge(W, ty, build(t[0]), build(t[1]), pre)
                         builds.append(("chunks%s/tree%s" % (comp, tree), build(tree)))
+                        variants.append((comp, tree))
         goals = []
         wsum = sum(ws[1:], ws[0])
         wx = sum([ws[j] * xs[j] for j in range(1, k)], ws[0] * xs[0])
-        for label, v in builds:
-            S = lambda meth: wm_stat(W, ty, v, meth, pre)
+
+        def spec_for(v, extra):
+            S = lambda meth: wm_stat(W, ty, v, meth, list(pre) + list(extra))
             g = [gfeq(S(mean_m), wx / wsum), gfeq(S("sum_weights"), wsum)]
             if ty == "WeightedMeanWithError":
                 wsq = sum([ws[j] * ws[j] for j in range(1, k)], ws[0] * ws[0])
@@ -149,11 +133,15 @@ def check_weighted_def_k(W, prop, ty, k, with_merge=False):
                     sv = m2 / (k - 1)
                     g.append(gfeq(S("sample_variance"), sv))
                     g.append(gfeq(S("variance_of_weighted_mean"), sv * wsq / (wsum * wsum)))
-            goals.append(to_bool(b_and(*g)))
+            return b_and(*g)
+        for label, gv in builds:
+            for extra, v in gv:
+                goals.append(z3.Implies(gconj(extra), z3.BoolVal(False) if isinstance(v, str) else to_bool(spec_for(v, extra))))
         W.prove("%s.def-%d[weights %s]%s" % (ty, k, tag, "(+%d merge trees)" % (len(builds) - 1) if len(builds) > 1 else ""), pre,
                 z3.And(*goals), role="%s:%s.definition" % (prop, ty),
                 note="%d symbolic pairs, weight pattern %s (0 = zero weight, w = positive): weighted mean = sum(w x)/sum(w) etc., "
-                     "by definition%s" % (k, tag, "; also over every 2- and 3-chunk composition and merge tree" if with_merge else ""))
+                     "by definition%s" % (k, tag, "; also over every 2- and 3-chunk composition and merge tree" if with_merge else ""),
+                replay=rp.stream_replay(ty, xs, seconds=ws, variants=variants, kind="weighted"))
 
 
 def check_wmwe_accessors(W, prop):
@@ -164,6 +152,16 @@ def check_wmwe_accessors(W, prop):
            z3.Implies(ws > 0, q > 0), z3.Implies(ws == 0, z3.And(q == 0, a == 0))]
     st = W.from_parts("WeightedMeanWithError", [F(q), Agg([F(ws), F(a)], "tuple"), Agg([F(mu), n, F(m2)], "tuple")])
     ty = "WeightedMeanWithError"
+    W._last_state = None
+    RP = rp.wmwe_state_replay(q, ws, a, mu, n, m2)
+    import functools
+    global acc_spec
+    _acc = acc_spec
+    acc_spec_l = functools.partial(_acc, replay=RP)
+    return _wmwe_accessors(W, prop, ty, pre, st, acc_spec_l, q, ws, a, mu, n, m2)
+
+
+def _wmwe_accessors(W, prop, ty, pre, st, acc_spec, q, ws, a, mu, n, m2):
     acc_spec(W, prop, ty, "weighted_mean", pre, st, lambda v: z3.If(ws == 0, is_nan(v), to_bool(feq(v, a))),
              note="weighted mean, NaN when the total weight is zero")
     acc_spec(W, prop, ty, "sum_weights", pre, st, lambda v: to_bool(feq(v, ws)))
@@ -192,18 +190,23 @@ def check_weighted_hull(W, prop, k):
     ws = [z3.Real("w%d" % j) for j in range(k)]
     lo, hi = z3.Reals("lo hi")
     pre = [w >= 0 for w in ws] + [sum(ws[1:], ws[0]) > 0] + [z3.And(lo <= x, x <= hi) for x in xs]
-    # the estimator is driven only where it is defined: the first weight is positive (zero-weight-first is C08's finding)
-    pre.append(ws[0] > 0)
-    v = feed_pairs(W, "WeightedMeanWithError", list(zip(xs, ws)))
-    wm = wm_stat(W, "WeightedMeanWithError", v, "weighted_mean", pre)
-    el = wm_stat(W, "WeightedMeanWithError", v, "effective_len", pre)
-    um = wm_stat(W, "WeightedMeanWithError", v, "unweighted_mean", pre)
+    gv = feed_pairs(W, "WeightedMeanWithError", list(zip(xs, ws)), pre)
     inhull = lambda v: z3.And(z3.Not(is_nan(v)), R(v) >= lo, R(v) <= hi)
-    W.prove("WeightedMeanWithError.hull-%d" % k, pre, z3.And(gspec(wm, inhull), gspec(um, inhull)),
+    hull_goals, el_goals = [], []
+    for extra, v in gv:
+        if isinstance(v, str):
+            hull_goals.append(z3.Implies(gconj(extra), z3.BoolVal(False)))
+            continue
+        full = list(pre) + list(extra)
+        wm = wm_stat(W, "WeightedMeanWithError", v, "weighted_mean", full)
+        el = wm_stat(W, "WeightedMeanWithError", v, "effective_len", full)
+        um = wm_stat(W, "WeightedMeanWithError", v, "unweighted_mean", full)
+        hull_goals.append(z3.Implies(gconj(extra), z3.And(gspec(wm, inhull), gspec(um, inhull))))
+        el_goals.append(z3.Implies(gconj(extra), gspec(el, lambda v: z3.And(z3.Not(is_nan(v)), R(v) >= 1, R(v) <= k))))
+    W.prove("WeightedMeanWithError.hull-%d" % k, pre, z3.And(*hull_goals),
             role="%s:weighted-mean-within-data-range" % prop,
             note="%d symbolic pairs, weights >= 0 with positive sum: weighted and unweighted means lie in [min x, max x] (exact arithmetic)" % k)
-    W.prove("WeightedMeanWithError.effective-len-range-%d" % k, pre,
-            gspec(el, lambda v: z3.And(z3.Not(is_nan(v)), R(v) >= 1, R(v) <= k)),
+    W.prove("WeightedMeanWithError.effective-len-range-%d" % k, pre, z3.And(*el_goals),
             role="%s:effective-len-between-one-and-len" % prop,
             note="%d symbolic weights >= 0 with positive sum: 1 <= (sum w)^2/sum w^2 <= n (exact arithmetic)" % k)
 
@@ -245,7 +248,8 @@ def check_cov_add_step(W, prop):
         goals.append(z3.Implies(conj(o.pc), to_bool(cov_eq(cov_get(W, after), *exp))))
     W.prove("Covariance.add-step(n symbolic)", pre, z3.And(*goals), role="%s:Covariance.add-step" % prop,
             note="every n >= 0, every real pair: means, both sums of squares and the co-moment equal the exact update "
-                 "(Sxy' = Sxy + dx*dy*n/(n+1)); the x/y roles are symmetric in the oracle")
+                 "(Sxy' = Sxy + dx*dy*n/(n+1)); the x/y roles are symmetric in the oracle",
+            replay=rp.cov_state_replay((n, mx, my, sxx, syy, sxy), "add", xy=(x, y)))
 
 
 def check_cov_merge_step(W, prop):
@@ -270,17 +274,12 @@ def check_cov_merge_step(W, prop):
         e = z3.If(nb == 0, to_bool(cov_eq(g, *A)), z3.If(na == 0, to_bool(cov_eq(g, *B)), to_bool(cov_eq(g, *exp))))
         goals.append(z3.Implies(conj(o.pc), z3.And(e, to_bool(cov_eq(gb, *B)))))
     W.prove("Covariance.merge-step(na, nb symbolic)", pre, z3.And(*goals), role="%s:Covariance.merge-step" % prop,
-            note="all counts >= 0: pooled means, sums of squares and co-moment of the union; empty operands are identities; argument unchanged")
+            note="all counts >= 0: pooled means, sums of squares and co-moment of the union; empty operands are identities; argument unchanged",
+            replay=rp.cov_state_replay(A, "merge", B=B))
 
 
 def cov_feed(W, pairs):
-    v = W.call_pure("Covariance", "new", [])
-    for (x, y) in pairs:
-        res = W.method("Covariance", "add", v, [F(x), F(y)])
-        if len(res) != 1 or res[0][0].kind != "return":
-            raise Unsupported("Covariance::add forked")
-        v = res[0][1]
-    return v
+    return g_feed(W, "Covariance", [[F(x), F(y)] for (x, y) in pairs])
 
 
 def check_cov_def_k(W, prop, k, with_merge=False):
@@ -292,6 +291,7 @@ def check_cov_def_k(W, prop, k, with_merge=False):
     syy = sum([(y - my) * (y - my) for y in ys[1:]], (ys[0] - my) * (ys[0] - my))
     sxy = sum([(xs[j] - mx) * (ys[j] - my) for j in range(1, k)], (xs[0] - mx) * (ys[0] - my))
     builds = [cov_feed(W, list(zip(xs, ys)))]
+    variants = []
     # x <-> y swapped ingestion must give the swapped summary with the same co-moment
     swapped = cov_feed(W, list(zip(ys, xs)))
     if with_merge:
@@ -302,19 +302,16 @@ def check_cov_def_k(W, prop, k, with_merge=False):
                     def build(t):
                         if isinstance(t, int):
                             return leaves[t]
-                        l, r = build(t[0]), build(t[1])
-                        ca, cb = Cell(clone_value(l)), Cell(clone_value(r))
-                        outs = W.run("Covariance", "merge", [Ref(ca, ()), Ref(cb, ())], roots={"a": ca})
-                        if len(outs) != 1 or outs[0].kind != "return":
-                            raise Unsupported("merge forked on concrete sizes")
-                        return outs[0].state.roots["a"].v
+                        return g_merge(W, "Covariance", build(t[0]), build(t[1]))
                     builds.append(build(tree))
-    goals = [to_bool(cov_eq(cov_get(W, v), k, mx, my, sxx, syy, sxy)) for v in builds]
-    goals.append(to_bool(cov_eq(cov_get(W, swapped), k, my, mx, syy, sxx, sxy)))
+                    variants.append((comp, tree))
+    goals = [g_goal(gv, lambda v: cov_eq(cov_get(W, v), k, mx, my, sxx, syy, sxy)) for gv in builds]
+    goals.append(g_goal(swapped, lambda v: cov_eq(cov_get(W, v), k, my, mx, syy, sxx, sxy)))
     W.prove("Covariance.def-%d%s" % (k, "(+%d merge trees)" % (len(builds) - 1) if with_merge else ""), [], z3.And(*goals),
             role="%s:Covariance.definition" % prop,
             note="%d symbolic pairs: means, sums of squares and co-moment by definition; swapping x and y swaps the x/y statistics "
-                 "and keeps the co-moment%s" % (k, "; every 2- and 3-chunk composition and merge tree" if with_merge else ""))
+                 "and keeps the co-moment%s" % (k, "; every 2- and 3-chunk composition and merge tree" if with_merge else ""),
+            replay=rp.stream_replay("Covariance", xs, seconds=ys, variants=variants, kind="cov"))
 
 
 def check_cov_accessors(W, prop):
@@ -322,6 +319,14 @@ def check_cov_accessors(W, prop):
     pre = cov_inv(n, mx, my, sxx, syy, sxy)
     st = cov_mk(W, n, mx, my, sxx, syy, sxy)
     ty = "Covariance"
+    W._last_state = None
+    import functools
+    _acc = acc_spec
+    acc_spec_l = functools.partial(_acc, replay=rp.cov_state_replay((n, mx, my, sxx, syy, sxy)))
+    return _cov_accessors(W, prop, ty, pre, st, acc_spec_l, n, mx, my, sxx, syy, sxy)
+
+
+def _cov_accessors(W, prop, ty, pre, st, acc_spec, n, mx, my, sxx, syy, sxy):
     acc_spec(W, prop, ty, "len", pre, st, lambda v: to_real_int_eq(v, n))
     acc_spec(W, prop, ty, "is_empty", pre, st, lambda v: to_bool(v) == (n == 0))
     acc_spec(W, prop, ty, "mean_x", pre, st, lambda v: z3.If(n == 0, is_nan(v), to_bool(feq(v, mx))))
